@@ -33,6 +33,10 @@ CHECKS = {
             "deterministic simulation with fault injection: kill-point and error-site sweep over pilot executions + random multi-fault runs"),
     "C12": ("fault_enumeration", "7.12", "seeded fault plans (sbatch failures of all kinds for drawn subsets of batches, node kills at seeded yield points of node process trees, walltime TIMEOUT, dependency cycles) followed by the documented recovery; accounting of the final results against SimSlurm / SimJobs ground truth",
             "deterministic simulation with fault injection: lost-batch fault plans + conservation oracle vs ground truth"),
+    "C13": ("exploration", "7.13", "first epoch to completion with a mix of outcomes (missing via lost batch or cancel), 1-3 resubmit-jobs with drawn flags and per-epoch exit codes; rerun set = selection + transitive dependents from the scenario DAG; launches, ordering, preserved rows, result shape; refusal on incomplete submissions incl. role stripping; failed command never leaves results erased with no way forward",
+            "deterministic simulation: exactness of rerun set vs reference closure, preservation and refusal oracles over seeded histories"),
+    "C14": ("exploration", "7.14", "cancel-jobs at a drawn moment (after n-th sbatch / launch / exit or at a time), followed by drawn commands and the documented recovery; no sbatch after the canceled flag became visible, scancel coverage against SimSlurm ground truth, results kept, missing accounted",
+            "deterministic simulation: ordering invariant (no sbatch after cancel) + scancel coverage vs SimSlurm ground truth"),
     "C16": ("exploration", "7.16", "hook commands recorded by the shell stub with env and sequence number; counts and ordering per submission / per batch, HPC and local",
             "deterministic simulation: ordering / exactly-once oracle on recorded hook commands"),
     "C18": ("exploration", "7.18", "script options compared field by field with the generated SlurmConfig at every sbatch (option names validated against sbatch's vocabulary); conservative status and bounded retries in world runs and component simulations",
@@ -47,7 +51,7 @@ NOT_APPLICABLE = [
     {"property_id": "C17", "reason": "pure function of one input evaluated by one sequential process: no schedule, clock, fault or second party for a simulator to control (DESIGN.md 7.17)"},
 ]
 
-PENDING = {p: "check not built yet in this session (planned, DESIGN.md section 7); no claim is made" for p in ("C13", "C14", "C15")}
+PENDING = {p: "check not built yet in this session (planned, DESIGN.md section 7); no claim is made" for p in ("C15",)}
 
 
 def main():
